@@ -176,7 +176,7 @@ def fp_diff(a, b):
 def generate(seed, tier, cfg):
     st = R.Streams(seed)
     k = st.knobs
-    asc = gen.gen_score(st.workload, profile="full")
+    asc = gen.gen_score(st.workload, profile="full", size=gen.pick_size(tier, st.knobs))
     for p in asc["parts"]:
         p["nav"] = []  # navigation marks are not written by the exporter and not listed by the property
     o = st.ops
